@@ -271,10 +271,16 @@ def implies(facts: Sequence[Tuple[ast.expr, bool]], goal: ast.expr, mapping: Dic
     rel = _relevant(ffs, gf, goal_atoms)
     ffs = [f for f in ffs if _atoms_of(f) & rel]
     keys = sorted(rel | goal_atoms)
-    if len(keys) > MAX_ATOMS:
-        raise AnalysisError(f"too many guard atoms ({len(keys)}) for goal {unparse(goal)}")
-    for bits in itertools.product((False, True), repeat=len(keys)):
-        val = dict(zip(keys, bits))
+    fixed = _unit_literals(ffs)
+    if fixed is None:
+        return True  # contradictory facts imply anything
+    fixed = {k: v for k, v in fixed.items() if k in keys}
+    free = [k for k in keys if k not in fixed]
+    if len(free) > MAX_ATOMS:
+        raise AnalysisError(f"too many guard atoms ({len(free)}) for goal {unparse(goal)}")
+    for bits in itertools.product((False, True), repeat=len(free)):
+        val = dict(fixed)
+        val.update(zip(free, bits))
         if not _consistent(val, keys):
             continue
         if all(evaluate(f, val) for f in ffs) and not evaluate(gf, val):
@@ -289,13 +295,40 @@ def satisfiable(facts: Sequence[Tuple[ast.expr, bool]], mapping=None) -> bool:
         f = to_formula(subst(e, mapping or {}), atoms)
         ffs.append(f if pol else ("not", f))
     keys = sorted(atoms)
-    if len(keys) > MAX_ATOMS:
+    fixed = _unit_literals(ffs)
+    if fixed is None:
+        return False  # a literal and its negation
+    free = [k for k in keys if k not in fixed]
+    if len(free) > MAX_ATOMS:
         return True
-    for bits in itertools.product((False, True), repeat=len(keys)):
-        val = dict(zip(keys, bits))
+    for bits in itertools.product((False, True), repeat=len(free)):
+        val = dict(fixed)
+        val.update(zip(free, bits))
         if _consistent(val, keys) and all(evaluate(f, val) for f in ffs):
             return True
     return False
+
+
+def _unit_literals(ffs) -> Optional[Dict[str, bool]]:
+    """atoms whose value the conjunction of ffs fixes directly (facts that are a literal, conjunctions of literals);
+    None when two of them contradict.  Enumeration then only ranges over the remaining atoms."""
+    fixed: Dict[str, bool] = {}
+
+    def visit(f, pol) -> bool:
+        k = f[0]
+        if k == "atom":
+            if fixed.setdefault(f[1], pol) != pol:
+                return False
+        elif k == "not":
+            return visit(f[1], not pol)
+        elif (k == "and" and pol) or (k == "or" and not pol):
+            return all(visit(x, pol) for x in f[1])
+        return True
+
+    for f in ffs:
+        if not visit(f, True):
+            return None
+    return fixed
 
 
 def _atoms_of(f) -> set:
